@@ -97,3 +97,42 @@ def c09_only_long_numbers(failure):
         if len(''.join(digits).strip('0')) <= 15:
             return False
     return True
+
+
+_C02_BAD = {}
+
+
+def _c02_bad_words(type_):
+    """failing child words of one matcher type, as enumerated for C02 (kf/C02-<type>.jsonl)"""
+    if type_ not in _C02_BAD:
+        import json as _json
+        import os as _os
+        root = _os.path.dirname(_os.path.dirname(_os.path.abspath(__file__)))
+        words = set()
+        path = _os.path.join(root, 'kf', 'C02-%s.jsonl' % type_)
+        if _os.path.exists(path):
+            with open(path, encoding='utf-8') as f:
+                for line in f:
+                    if line.strip():
+                        words.add(tuple(_json.loads(line)['word']))
+        _C02_BAD[type_] = words
+    return _C02_BAD[type_]
+
+
+def c09_doc_has_known_bad_word(failure, type_, elements, bound):
+    """C09 (a): some node of the document whose element belongs to the matcher type carries a child word that is
+    one of the exactly enumerated failing words of that type (or is longer than the enumeration bound)"""
+    plan = failure['input'].get('plan')
+    if plan is None:
+        return False
+    bad = _c02_bad_words(type_)
+    stack = [plan]
+    while stack:
+        n = stack.pop()
+        kids = n.get('kids', [])
+        if n.get('element') in elements:
+            w = tuple(k['element'] for k in kids)
+            if w in bad or len(w) > bound:
+                return True
+        stack.extend(kids)
+    return False
